@@ -267,6 +267,9 @@ func checkErrorsReturned(c *Ctx, rule string, f *ssa.Function, errIdx int, skip 
 			continue
 		}
 		name := calleeName(&call.Call)
+		if infallible[name] {
+			continue
+		}
 		ev := errValueOf(call)
 		if ev == nil {
 			c.obI(rule, call, "err-of-"+name, false, "the error result of every fallible call is examined", "error result of "+name+" is dropped")
@@ -300,4 +303,10 @@ func checkErrorsReturned(c *Ctx, rule string, f *ssa.Function, errIdx int, skip 
 		}
 		c.obI(rule, call, "err-of-"+name, ok, "after a fallible call the success return is reached only through err == nil (errors are returned, not swallowed)", why)
 	}
+}
+
+// callees whose error result is documented to be always nil.
+var infallible = map[string]bool{
+	"(*bytes.Buffer).Write": true, "(*bytes.Buffer).WriteString": true, "(*bytes.Buffer).WriteByte": true, "(*bytes.Buffer).WriteRune": true,
+	"(*strings.Builder).Write": true, "(*strings.Builder).WriteString": true, "(*strings.Builder).WriteByte": true, "(*strings.Builder).WriteRune": true,
 }
